@@ -22,7 +22,7 @@ use crate::util::*;
 pub const PROP: Prop = Prop {
     id: "C11",
     level: "exploration",
-    rule: "(rounds 6-7: spans after a transient stream failure between two datums; the model-free walk goes on after syntax errors, from every source kind) (plus a model-free walk - inside the input, non-empty, containment, sibling order, covered text re-parses to the sub-datum, shorthand heads, equal spans from every source kind - over every datum of token-alphabet sequences, mutated printed text, string/character/numeric literals and arbitrary bytes) (a cloned datum and Datum::from(sub-datum) have to report the same spans as the original) values from G_value restricted to what the chosen parser option set reads back verbatim, rendered by G_layout with alternative spellings and generated trivia (spaces, tabs, CR, LF, CRLF, form feed, comments with non-ASCII text) at every token boundary, so that the byte range of every datum and sub-datum is known by construction; parsed as a datum from &str, &[u8], an unbuffered reader and a BufReader; oracle: reported start/end of every datum reachable through list_iter/vector_iter equals the layout's own position map (1-based line, 0-based byte column, end exclusive), plus the clauses of the statement checked independently of the map (inside the input, non-empty, inside the parent, after the preceding sibling, text re-parses to the sub-datum, shorthand head covers the shorthand characters), and identical spans from all sources; non-trivial = at least one sub-datum and (at least 2 lines, or a non-ASCII byte before a datum, or a shorthand, or a dotted tail); distinct by digest of (value, options, choices)",
+    rule: "(round 8: what ListIter::peek shows is what next yields, value and span, at every step of every list walk) (rounds 6-7: spans after a transient stream failure between two datums; the model-free walk goes on after syntax errors, from every source kind) (plus a model-free walk - inside the input, non-empty, containment, sibling order, covered text re-parses to the sub-datum, shorthand heads, equal spans from every source kind - over every datum of token-alphabet sequences, mutated printed text, string/character/numeric literals and arbitrary bytes) (a cloned datum and Datum::from(sub-datum) have to report the same spans as the original) values from G_value restricted to what the chosen parser option set reads back verbatim, rendered by G_layout with alternative spellings and generated trivia (spaces, tabs, CR, LF, CRLF, form feed, comments with non-ASCII text) at every token boundary, so that the byte range of every datum and sub-datum is known by construction; parsed as a datum from &str, &[u8], an unbuffered reader and a BufReader; oracle: reported start/end of every datum reachable through list_iter/vector_iter equals the layout's own position map (1-based line, 0-based byte column, end exclusive), plus the clauses of the statement checked independently of the map (inside the input, non-empty, inside the parent, after the preceding sibling, text re-parses to the sub-datum, shorthand head covers the shorthand characters), and identical spans from all sources; non-trivial = at least one sub-datum and (at least 2 lines, or a non-ASCII byte before a datum, or a shorthand, or a dotted tail); distinct by digest of (value, options, choices)",
     assumptions: &[
         "layout text that the parser does not read back as the generated value is excluded here and counted (that defect class belongs to C12/C13); more than 2% of such cases makes the run inconclusive",
         "floats are compared with the C05 tolerance when re-parsing",
